@@ -212,11 +212,23 @@ OS_PrevLookup ==
     /\ NoWrite /\ UNCHANGED <<obj, cr, dyn, budget, uidc>>
 
 \* preflight: server-side dry run of every object of the phase, before any object of the phase is touched
+\* Variant (FALSE = the code; overridden by a negative control): a dry-run apply answered with 409 Conflict is retried
+\* without the dry-run option - a REAL forced apply of the desired object (own revision, no owner references) that no
+\* adoption check has seen (seeded change C02 round 4; the 409 is charged to the env budget).
+DryConflictApplies == FALSE
+
 OS_Dry ==
     /\ pc.st = "Dry"
     /\ IF pc.i < Len(Phases[S][pc.j]) THEN pc' = [ pc EXCEPT !.i = @ + 1 ]
        ELSE pc' = [ pc EXCEPT !.st = "Watch", !.i = 1 ]
-    /\ NoWrite /\ UNCHANGED <<obj, cr, dyn, budget, uidc>>
+    /\ \/ NoWrite /\ UNCHANGED <<obj, cr, dyn, budget, uidc>>
+       \/ /\ DryConflictApplies /\ budget.env > 0 /\ obj[CurObj].exists
+          /\ LET o == obj[CurObj]
+                 n == ApplyOn(o, S, pc.orev, <<>>, uidc) IN
+             /\ obj' = [ obj EXCEPT ![CurObj] = n ]
+             /\ W("os", "ApplyPatch", CurObj, o, n, "dryretry")
+          /\ budget' = [ budget EXCEPT !.env = @ - 1 ]
+          /\ UNCHANGED <<cr, dyn, uidc>>
 
 OS_Watch ==
     /\ pc.st = "Watch"
